@@ -190,7 +190,7 @@ def root_schemas(d, max_leaves=8, kwfun=keyword_strategies):
 
 ODD = st.one_of(
     st.sampled_from([None, True, False, 0, 1, -1, 2, 0.0, 1.0, 2.0, 1.5, -0.0, 10 ** 400, 1e308, 5e-324, "", "a",
-                     "string", "object", "#", "^a"]),
+                     "string", "object", "#", "^a", "(", "[a-", "*a", "a{2,1}"]),
     st.builds(list), st.builds(dict),
     st.lists(st.sampled_from(["a", "b", "string", 1, None, True]), max_size=3),
     st.dictionaries(st.sampled_from(["a", "b", "type", "items"]),
